@@ -26,6 +26,7 @@ const Module = "github.com/uber-go/gopatch"
 
 // Prog is the loaded, type-checked and SSA-built program.
 type Prog struct {
+	roleCache map[string]*ssa.Function
 	Dir   string
 	Fset  *token.FileSet
 	Pkgs  []*packages.Package          // module packages, sorted by path
@@ -178,6 +179,32 @@ func FuncPkgPath(fn *ssa.Function) string {
 // spec is "name" for a package-level function, "T.M" for a method of T or *T.
 // Returns nil when it does not exist (the caller reports an unresolved anchor).
 func (p *Prog) Func(rel, spec string) *ssa.Function {
+	if f := p.funcByName(rel, spec); f != nil {
+		return f
+	}
+	// renamed? resolve the anchor by the role it plays (set by package rules)
+	if RoleResolver != nil {
+		key := rel + "|" + spec
+		if p.roleCache == nil {
+			p.roleCache = map[string]*ssa.Function{}
+		}
+		if f, ok := p.roleCache[key]; ok {
+			return f
+		}
+		p.roleCache[key] = nil // guards against recursion
+		f := RoleResolver(p, rel, spec)
+		p.roleCache[key] = f
+		return f
+	}
+	return nil
+}
+
+// RoleResolver finds an anchored function that is no longer known under its
+// name by what it does (e.g. "the function of package main that calls
+// filepath.Walk").
+var RoleResolver func(p *Prog, rel, spec string) *ssa.Function
+
+func (p *Prog) funcByName(rel, spec string) *ssa.Function {
 	sp := p.SPkg[PkgPath(rel)]
 	if sp == nil {
 		return nil
